@@ -5,7 +5,7 @@
 (* additions.  Order independence follows from AccMatches (the reference   *)
 (* is a function of the bag) and is also checked directly by Permuted.     *)
 (***************************************************************************)
-EXTENDS Integers, Sequences, FiniteSets, TLC
+EXTENDS Integers, Sequences, FiniteSets, TLC, Json, IOUtils, SequencesExt
 
 CONSTANTS TsVals, LatVals, CodeVals, ErrVals, ByteVals, MaxAdds, MinSentinelZero
 
@@ -23,6 +23,13 @@ Init == M!MInit
 Next == \/ (Len(added) < MaxAdds /\ \E r \in Results : M!MAdd(r))
         \/ M!MClose
 Spec == Init /\ [][Next]_<<acc, derived, added>>
+
+\* (G) the grid of short histories over (timestamp, latency) explored above is handed to the harness, which replays each
+\* one on the real Metrics with every placement of intermediate Close calls
+GridSeqs == UNION {[1..n -> [ts : TsVals, lat : LatVals]] : n \in 1..3}
+ASSUME Export == IF "CASES_OUT" \in DOMAIN IOEnv
+                 THEN ndJsonSerialize(IOEnv.CASES_OUT, SetToSeq({[adds |-> g] : g \in GridSeqs}))
+                 ELSE TRUE
 
 AccMatches == M!AccMatches
 CloseMatches == M!CloseMatches
